@@ -52,11 +52,14 @@ def rand_schedule(rng):
 def run(ctx):
     rng = ctx.rng
     n = ctx.n(25, 300)
-    nsched = ctx.n(7, 30)
+    nsched = ctx.n(8, 30)
     entries = []
     for i in range(n):
         option = lc.OPTIONS[i % 3]
-        S, info = lc.gen_script(rng, option, max_steps=200 if option != "gillespie" else 30, policy=lc.POLICIES[(i // 3) % 4])
+        S, info = lc.gen_script(rng, option, max_steps=200 if option != "gillespie" else 30, policy=lc.POLICIES[(i // 3) % 4],
+                                space_kind=["grid", "graph"][(i // 12) % 2])
+        if i % 6 in (1, 2):
+            S["kw"]["rng_seed"] = 0          # seed 0 is a seed like any other
         entries.append({"S": S, "info": info, "option": option, "idx": i})
     # ---- references: fresh process, one iteration at a time (also yields the clock for the model)
     jobs = []
@@ -89,10 +92,12 @@ def run(ctx):
     for e in good:
         others = [o for o in good if o is not e]
         for v in range(nsched):
-            kind = ["schedule", "schedule", "after_others", "simulate", "resim", "reused", "noseed"][v % 7] if v < 7 else rng.choice(
-                ["schedule", "after_others", "reused", "simulate"])
+            kind = ["schedule", "twice", "after_others", "simulate", "resim", "reused", "noseed", "schedule"][v % 8] if v < 8 else rng.choice(
+                ["schedule", "after_others", "reused", "simulate", "twice"])
             calls, scripts, engines = [], [e["S"]], [e["option"]]
             sched = rand_schedule(rng)
+            if rng.random() < 0.5:
+                sched.append(["iterate_n", rng.choice([64, 1000])])      # repeated until completion: overshoots the completing step
             main_obj = 0
             if kind in ("after_others", "reused") and others:
                 # earlier simulations of other scripts (other sizes, policies; possibly another engine kind on another object)
@@ -120,6 +125,12 @@ def run(ctx):
                 S2["kw"]["rng_seed"] = None
                 scripts.append(S2)
                 calls += [{"obj": 0, "call": "simulate", "script": len(scripts) - 1}, {"obj": 0, "call": "new"}, {"obj": 0, "call": "resim"}]
+            elif kind == "twice":
+                # the SAME RDScript object is set up and run twice (set-up must not modify the caller's script)
+                for _ in range(2):
+                    calls += [{"obj": 0, "call": "setup", "script": 0, "peek": True},
+                              {"obj": 0, "call": "schedule", "steps": sched, "max": 100000},
+                              {"obj": 0, "call": "get_output", "full": True}, {"obj": 0, "call": "finalize"}]
             else:
                 calls += [{"obj": main_obj, "call": "setup", "script": 0, "peek": True},
                           {"obj": main_obj, "call": "schedule", "steps": sched, "max": 100000},
@@ -162,13 +173,16 @@ def run(ctx):
                               case, impl={"seed": outs[-2]["seed"], "first": outs[-2]["hash"], "rerun": outs[-1]["hash"]})
             continue
         h = outs[-1]["hash"]
+        if kind == "twice" and outs[0]["hash"] != outs[-1]["hash"]:
+            ctx.violation("bitwise:same-script-twice", "running the same RDScript object twice gives two different trajectories", case,
+                          impl=[o["hash"] for o in outs])
         if h != e["ref"]["hash"]:
             ctx.violation("bitwise:%s" % kind, "trajectory of a %s run differs bitwise from the fresh-process one-step-at-a-time reference" % kind,
                           case, impl={"hash": h, "nsamples": outs[-1]["nsamples"]}, expected={"hash": e["ref"]["hash"], "nsamples": e["ref"]["out"]["nsamples"]})
         if kind == "resim" and outs[-2]["hash"] != h:
             ctx.violation("stored-script", "re-running trajectory.script does not reproduce the trajectory", case)
         # ---- correspondence: the model replays the schedule
-        if kind in ("schedule", "reused", "after_others"):
+        if kind in ("schedule", "reused", "after_others", "twice"):
             srec = [x for c, x in zip(j["calls"], r["results"]) if c["call"] == "schedule"][-1]["ret"]
             if srec["ncalls"] <= 50:
                 T = e["ref"]["T"]
